@@ -171,7 +171,7 @@ func scriptKey(sc scenario) string {
 // emit writes the correspondence line of one executed scenario and returns its case lines.
 func (c *ctx) emit(sc scenario, res result) []string {
 	l := c.line(sc, res)
-	c.r.Line(l, res.trace()+" "+res.outcome+" "+res.adv)
+	c.r.Line(l, res.trace()+" "+res.outcome+" "+res.adv+" "+res.local)
 	return caseLines(c.r.Prop, l, sc)
 }
 
@@ -207,6 +207,27 @@ func (c *ctx) judge(sc scenario, res result, lines []string) {
 				}
 				r.Fail("servername", k, lines, fmt.Sprintf("the server name offered is %q; it must be the domainpart of the session's own address %s: %q (remote address: %s)", n, sc.originStr(), wantN, domains[sc.remote]))
 			}
+		}
+		// "that session's own address" is the address the session was created with: nothing the
+		// peer puts into a stream header — least of all one received in clear text — may become
+		// the session's address (StartTLS(nil) verifies the certificate against its domainpart),
+		// and the address values the caller passed in are the caller's
+		phase := "clear"
+		if res.hello != "" || sc.ck == 3 {
+			phase = "tls"
+		}
+		if want := "T" + sc.ownAddr().code(); res.local != "T-" && res.local != want {
+			k := "other-domain"
+			if strings.HasPrefix(res.local, "T") && strings.Contains(res.local, fmt.Sprintf(".%d.", sc.domain)) {
+				k = "same-domain"
+			}
+			r.Fail("own-address", teeK+"/local-address/"+k, lines, fmt.Sprintf("after NewSession LocalAddr() is %s (a 'to' the peer sent, %s phase); the session was created with %s", strings.TrimPrefix(res.local, "T"), phase, sc.originStr()))
+		}
+		if res.remoteCh != "" {
+			r.Fail("own-address", teeK+"/remote-address", lines, fmt.Sprintf("after NewSession RemoteAddr() is %s; the session was created for %s", res.remoteCh, domains[sc.remote]))
+		}
+		if res.callerCh != "" {
+			r.Fail("own-address", teeK+"/caller-value-overwritten", lines, res.callerCh)
 		}
 		// `Secure` in State() implies TLS observable at the peer: whatever the connection is
 		// (a wrapper with a ConnectionState() method is not TLS), a session that says Secure
@@ -357,6 +378,10 @@ func caseLines(prop, line string, sc scenario) []string {
 			f = append(f, strconv.Itoa(n))
 		}
 		out = append(out, "#split="+strings.Join(f, ","))
+	}
+	if sc.mech != 0 {
+		// which mechanisms the real SASL feature is configured with (the model sees its masks)
+		out = append(out, "#mech="+strconv.Itoa(sc.mech))
 	}
 	return out
 }
@@ -722,18 +747,32 @@ func (c *ctx) corpus(tees []int) {
 	// 4. optional STARTTLS accepted, nothing else required
 	c.check(scenario{clear: [][]unit{{hdr(true), list(it(0, false))}, {u('P')}}, prot: []pu{{u: hdr(true)}, {u: list()}}}, tees, "corpus")
 	// 6. the real SASL and bind features advertised in clear text, with and without STARTTLS
-	bi := builtinOthers()
+	// … for every configuration of mechanisms (PLAIN only, SCRAM only, channel binding, mixed):
+	// the property names the built-in authentication feature, not one configuration of it
+	bi := builtinOthers(0)
 	sa, bd := item{id: idSASL, req: true, ok: true}, item{id: idBind, req: true, ok: true}
-	for _, l := range []unit{list(sa), list(sa, bd), list(it(0, true), sa, bd), list(it(0, false), sa), list(bd)} {
-		for _, a := range []byte{'P', 'F'} {
-			c.check(scenario{others: bi, clear: [][]unit{{hdr(true), l}, {u(a)}}, prot: []pu{{u: hdr(true)}, {u: list()}}}, tees, "corpus-builtin")
+	for mech := range mechSets {
+		bim := builtinOthers(mech)
+		tt := tees
+		if mech > 0 {
+			tt = []int{1 + mech%3}
+		}
+		for _, l := range []unit{list(sa), list(sa, bd), list(it(0, true), sa, bd), list(it(0, false), sa), list(bd)} {
+			for _, a := range []byte{'P', 'F'} {
+				c.check(scenario{mech: mech, others: bim, clear: [][]unit{{hdr(true), l}, {u(a)}}, prot: []pu{{u: hdr(true)}, {u: list()}}}, tt, "corpus-builtin")
+			}
+		}
+		// (were SASL selectable in clear text, Go's map order would decide between it and a
+		// required STARTTLS: repeat so that either order is seen)
+		for k := 0; k < 12; k++ {
+			c.check(scenario{mech: mech, others: bim, clear: [][]unit{{hdr(true), list(it(0, true), sa)}, {u('P')}}, prot: []pu{{u: hdr(true)}, {u: list()}}}, tt, "corpus-builtin")
 		}
 	}
-	// (were SASL selectable in clear text, Go's map order would decide between it and a
-	// required STARTTLS: repeat so that either order is seen)
-	for k := 0; k < 12; k++ {
-		c.check(scenario{others: bi, clear: [][]unit{{hdr(true), list(it(0, true), sa)}, {u('P')}}, prot: []pu{{u: hdr(true)}, {u: list()}}}, tees, "corpus-builtin")
-	}
+	// 9. the addresses in the peer's stream headers: every 'to' of the universe (own address,
+	// other localpart / domain / resource of the same and of another shape, bare domain, absent)
+	// x every 'from', in the clear-text header and in the header after the TLS switch; own and
+	// remote domain equal and different, c2s and s2s, default and explicit TLS configuration
+	c.headerAddresses(tees)
 	// 7. after the TLS switch: lists that name STARTTLS again, unknown features, features whose
 	// Prohibited mask holds now, and a required feature that only becomes negotiable once a
 	// voluntary one of the same list has set Authn (round 3: thorough seed 7)
@@ -780,6 +819,59 @@ func (c *ctx) corpus(tees []int) {
 		[]unit{hdr(true), list()}, tees, "corpus")
 }
 
+// headerTos: every 'to' a header can carry (nil: none)
+func headerTos() []*addr {
+	out := []*addr{nil}
+	for loc := 0; loc < 3; loc++ {
+		for dom := 0; dom < len(domains); dom++ {
+			for res := 0; res < 2; res++ {
+				out = append(out, &addr{loc, dom, res})
+			}
+		}
+	}
+	return out
+}
+
+func hdrA(from int, to *addr) unit {
+	h := unit{kind: 'A', from: from}
+	if to != nil {
+		h.hasTo, h.to = true, *to
+	}
+	return h
+}
+
+func (c *ctx) headerAddresses(tees []int) {
+	n := 0
+	for _, to := range headerTos() {
+		for from := range hdrFromKinds {
+			for _, s2s := range []bool{false, true} {
+				for inTLS := 0; inTLS < 2; inTLS++ {
+					if from >= 2 && n%3 != 0 && to != nil {
+						n++
+						continue // a foreign 'from' is refused whatever the 'to': keep a third
+					}
+					sc := scenario{domain: n % 4, remote: (n / 4) % 4, explicit: n%5 == 0, ck: n % 3}
+					if s2s {
+						sc.state0 = uint8(xmpp.S2S)
+					}
+					n++
+					h1, h2 := hdr(true), hdrA(from, to)
+					if inTLS == 0 {
+						h1, h2 = h2, h1
+					}
+					sc.clear = [][]unit{{h1, list(it(0, true))}, {u('P')}}
+					sc.prot = []pu{{u: h2}, {u: list()}}
+					tt := []int{1 + n%3}
+					if n%7 == 0 {
+						tt = tees
+					}
+					c.check(sc, tt, "corpus-header-addresses")
+				}
+			}
+		}
+	}
+}
+
 func (c *ctx) exhaustive(tees []int) {
 	r := c.r
 	f1 := other{id: 1, nec: 1, negotiable: true}
@@ -809,11 +901,13 @@ func (c *ctx) exhaustive(tees []int) {
 	if r.Quick() {
 		prots = prots[:5]
 	}
-	hdrs := [][]unit{{hdr(true)}, {u('W'), hdr(true)}, {hdr(false)}, {u('E')}, {}, {list()}, {u('P')}, {u('F')}, {u('G')}, {u('O')}, {u('M')}}
+	hdrs := [][]unit{{hdr(true)}, {u('W'), hdr(true)}, {hdr(false)}, {u('E')}, {}, {list()}, {u('P')}, {u('F')}, {u('G')}, {u('O')}, {u('M')},
+		// a 'to' that is another domain of the same shape / the bare own domain; no addresses at all
+		{hdrA(1, &addr{1, 5, 0})}, {hdrA(1, &addr{0, 6, 0})}, {hdrA(0, nil)}}
 	n := 0
 	for hi, h := range hdrs {
 		for _, f := range firsts {
-			if hi > 1 && len(f) > 0 && !(f[0].kind == 'L' && len(f[0].items) == 0) {
+			if hi > 1 && hi != 13 && len(f) > 0 && !(f[0].kind == 'L' && len(f[0].items) == 0) {
 				continue // a refused header: the rest of the script is irrelevant, keep one
 			}
 			for _, a := range answers {
@@ -827,6 +921,7 @@ func (c *ctx) exhaustive(tees []int) {
 						}
 						sc := scenario{others: []other{f1}, clear: segs(one, h, f, a), prot: p,
 							results: []negRes{{mask: 2}, {mask: 0}}, domain: n % 4, remote: (n / 4) % 4, explicit: n%3 == 0, ck: (n / 2) % 3}
+						sc.clear = relDomains(sc.clear, sc.domain)
 						if n%2 == 1 {
 							sc = useFeature2(sc, f2)
 						}
@@ -853,6 +948,27 @@ func (c *ctx) exhaustive(tees []int) {
 		}
 	}
 	r.Exhaustive = append(r.Exhaustive, fmt.Sprintf("%d scripts: header classes x %d first-list shapes x %d answers to the STARTTLS request x %d TLS-phase continuations x segmentation x tee variants x pipelined clear text", n, len(firsts), len(answers), len(prots)))
+}
+
+// relDomains resolves the domain codes 5 and 6 of header addresses: 5 = the domain after the
+// session's own (same shape), 6 = the session's own.
+func relDomains(clear [][]unit, own int) [][]unit {
+	var out [][]unit
+	for _, seg := range clear {
+		var ns []unit
+		for _, u := range seg {
+			if u.kind == 'A' && u.hasTo && u.to.dom >= 5 {
+				if u.to.dom == 5 {
+					u.to.dom = (own + 1) % 4
+				} else {
+					u.to.dom = own
+				}
+			}
+			ns = append(ns, u)
+		}
+		out = append(out, ns)
+	}
+	return out
 }
 
 // useFeature2 renames feature 1 to feature 2 everywhere in a scenario.
@@ -950,10 +1066,38 @@ func (c *ctx) random(n int, tees []int) {
 			}
 			return l
 		}
+		// a header: mostly the expected one; one in five carries addresses of the peer's choosing
+		// (mostly near misses of the session's own address)
+		genHdr := func(okOdds int) unit {
+			if rnd.Chance(1, 5) {
+				h := unit{kind: 'A', from: []int{1, 1, 1, 0, 2, 3}[rnd.Intn(6)]}
+				if !rnd.Chance(1, 5) {
+					h.hasTo = true
+					h.to = addr{1, sc.domain, 0}
+					if sc.state0&uint8(xmpp.S2S) != 0 {
+						h.to.loc = 0
+					}
+					switch rnd.Intn(6) {
+					case 0:
+						h.to.loc = rnd.Intn(3)
+					case 1, 2:
+						h.to.dom = rnd.Intn(len(domains))
+					case 3:
+						h.to.res = 1
+					case 4:
+						h.to = addr{rnd.Intn(3), rnd.Intn(len(domains)), rnd.Intn(2)}
+					}
+				}
+				return h
+			}
+			h := hdr(!rnd.Chance(1, okOdds))
+			h.variant = rnd.Intn(12)
+			return h
+		}
 		any := func() unit {
 			switch rnd.Intn(10) {
 			case 0:
-				return hdr(rnd.Chance(3, 4))
+				return genHdr(4)
 			case 1, 2:
 				return genList(false)
 			default:
@@ -962,9 +1106,7 @@ func (c *ctx) random(n int, tees []int) {
 		}
 		// clear phase: mostly well formed
 		var rounds [][]unit
-		h := hdr(!rnd.Chance(1, 12))
-		h.variant = rnd.Intn(12)
-		rounds = append(rounds, []unit{h})
+		rounds = append(rounds, []unit{genHdr(12)})
 		if rnd.Chance(1, 10) {
 			rounds[0] = append([]unit{u('W')}, rounds[0]...)
 		}
@@ -1015,9 +1157,7 @@ func (c *ctx) random(n int, tees []int) {
 			// (a round without a header: what follows a required feature that was
 			// negotiated without a stream restart)
 			if k == 0 || !rnd.Chance(1, 3) {
-				hh := hdr(!rnd.Chance(1, 15))
-				hh.variant = rnd.Intn(12)
-				sc.prot = append(sc.prot, pu{u: hh})
+				sc.prot = append(sc.prot, pu{u: genHdr(15)})
 			}
 			if rnd.Chance(1, 12) {
 				sc.prot = append(sc.prot, pu{junk: true})
@@ -1142,6 +1282,10 @@ func Run(r *common.Run) error {
 				sharedMode = strings.TrimSpace(strings.TrimPrefix(l, "#shared-negotiator"))
 				continue
 			}
+			if strings.HasPrefix(l, "#mech=") && len(scs) > 0 {
+				scs[len(scs)-1].mech, _ = strconv.Atoi(strings.TrimPrefix(l, "#mech="))
+				continue
+			}
 			if strings.HasPrefix(l, "#split=") && len(scs) > 0 {
 				var sp []int
 				for _, x := range strings.Split(strings.TrimPrefix(l, "#split="), ",") {
@@ -1239,7 +1383,7 @@ func Facts(repo string) (string, error) {
 	fmt.Fprintf(&sb, "def startTLSNecessary : Option Nat := some %d\n", uint8(st.Necessary))
 	fmt.Fprintf(&sb, "def startTLSProhibited : Option Nat := some %d\n", uint8(st.Prohibited))
 	fmt.Fprintf(&sb, "def startTLSNegotiable : Option Bool := some %v\n", st.Negotiate != nil)
-	sf, bf := builtin()
+	sf, bf := builtin(0)
 	fmt.Fprintf(&sb, "/-- masks of the real `xmpp.SASL(…)` and `xmpp.BindResource()` values -/\n")
 	fmt.Fprintf(&sb, "def saslNecessary : Option Nat := some %d\n", uint8(sf.Necessary))
 	fmt.Fprintf(&sb, "def saslProhibited : Option Nat := some %d\n", uint8(sf.Prohibited))
